@@ -67,3 +67,30 @@ Proof.
   split; [vm_compute; reflexivity|]. split; [|vm_compute; reflexivity].
   apply dsl_body_clean. vm_compute. reflexivity.
 Qed.
+
+(* ---- kind F, the main clause: ALL plain programs, ALL schedules, at every point while manager.run is pending ----
+   every body invocation logged so far, and every argument list held by the retry loop of a node task (what a body is, was or
+   will again be invoked with), is exactly the keyword-argument list computed from the stored results of the node's declared
+   inputs; a node has a task only when all its declared inputs have a result; and a stored result is never replaced (it is
+   final: lemma F1 inside Proofs/PlainArgs.v, which is what keeps `node_kwargs` stable from the invocation on). *)
+From MLPE Require Import Proofs.PlainCore Proofs.PlainArgs.
+
+Theorem C03_on_plain_programs_arguments_are_the_final_values_of_the_inputs :
+  forall P, plain_prog P -> NoDup (p_order P (maind P)) ->
+    forall st, reachable P st -> over st = false -> main_done st = false ->
+      (forall i k kw, In (OStart i k kw) (st_trace st) ->
+         exists m, real_index m = i /\ node_kwargs P st m = Some kw /\
+                   forall p, In p (preds (b_graph (build (p_decls P) (p_inp P) (p_out P))) m) -> exists_result p (st_store st) = true) /\
+      (forall x m f j kw, In x (st_tasks st) -> t_name x = TNNode m -> In f (estack (t_state x)) -> retry_kw f = Some (j, kw) ->
+         j = real_index m /\ node_kwargs P st m = Some kw) /\
+      (forall x m p, In x (st_tasks st) -> t_name x = TNNode m -> In p (preds (b_graph (build (p_decls P) (p_inp P) (p_out P))) m) ->
+         exists_result p (st_store st) = true).
+Proof. exact plain_arguments_are_final_values. Qed.
+Print Assumptions C03_on_plain_programs_arguments_are_the_final_values_of_the_inputs.
+
+(* a state in the middle of a run of the rhombus: the last node's body has been invoked with two arguments, the run is pending *)
+Example C03_plain_arguments_not_vacuous :
+  let st := auto_run cat_rhombus 4 init_state in
+  over st = false /\ main_done st = false /\
+  existsb (fun o => match o with OStart 3 _ (_ :: _ :: _) => true | _ => false end) (st_trace st) = true.
+Proof. vm_compute. repeat split; reflexivity. Qed.
